@@ -180,7 +180,9 @@ def code_dependencies_outputs(code: Sequence[ast.AST]) -> Tuple[Set[str], Set[st
                     elif isinstance(child.ctx, ast.Store):
                         node_created.add(child.id)
                     else:
-                        # Del
+                        # Del: needs the binding (NameError without it), and ends it
+                        if child.id not in node_created and child.id not in created_names:
+                            node_needed.add(child.id)
                         node_created.discard(child.id)
                         created_names.discard(child.id)
 
